@@ -2,6 +2,7 @@ package main
 
 import (
 	"fmt"
+	"go/ast"
 	"go/constant"
 	"go/token"
 	"go/types"
@@ -836,6 +837,29 @@ func (e *Env) deferDroppable(c *ssa.CallCommon) bool {
 	return true
 }
 
+// loopExtents: source extents of the for/range statements of fn in source order (loop N = N-th statement).
+func loopExtents(fn *ssa.Function) [][2]token.Pos {
+	var out [][2]token.Pos
+	syn := fn.Syntax()
+	if syn == nil {
+		return nil
+	}
+	ast.Inspect(syn, func(n ast.Node) bool {
+		switch s := n.(type) {
+		case *ast.FuncLit:
+			if n != syn {
+				return false
+			}
+		case *ast.ForStmt:
+			out = append(out, [2]token.Pos{s.Pos(), s.End()})
+		case *ast.RangeStmt:
+			out = append(out, [2]token.Pos{s.Pos(), s.End()})
+		}
+		return true
+	})
+	return out
+}
+
 // panicOrdinal: 1-based index of an explicit panic among the panics of its function, in source order.
 func panicOrdinal(p *ssa.Panic) int {
 	fn := p.Parent()
@@ -886,6 +910,12 @@ func (e *Env) assignPhis(fr *Frame, st *State, b, prev *ssa.BasicBlock) {
 func (e *Env) doReturn(fr *Frame, st *State, r *ssa.Return) []Out {
 	if fr.depth == 0 {
 		st.trace = append(st.trace, e.pos(r.Pos()))
+		st.retInLoops = nil
+		for i, ext := range loopExtents(fr.fn) {
+			if r.Pos() >= ext[0] && r.Pos() <= ext[1] {
+				st.retInLoops = append(st.retInLoops, i+1)
+			}
+		}
 	}
 	switch len(r.Results) {
 	case 0:
